@@ -98,6 +98,7 @@ type Rig struct {
 	res            *Result
 	wg             sync.WaitGroup
 	baseline       int
+	openGoroutines int // goroutines of the open split: the parked call (and its worker), blocked nested calls
 	stepNo         int
 	t0             time.Time
 	cfgMu          sync.Mutex
@@ -202,18 +203,19 @@ func (g *Rig) runTop(st Step) {
 	g.trace("STEP %s", st)
 	if st.Split == nil {
 		tok := g.m.Open()
-		g.perform(st)
+		c := g.perform(st)
 		g.m.End(st, false)
 		if !g.settle(false) {
 			return
 		}
-		g.stamp(tok, st)
+		g.stamp(tok, st, c)
 		g.checkQuiet("after " + st.String())
 		return
 	}
 	g.arm(st)
 	tok := g.m.Open()
-	done := g.performAsync(st)
+	call := g.performAsync(st)
+	done := call.done
 	reached := g.waitPark(st, done)
 	if g.res.Expired != "" {
 		return
@@ -232,11 +234,20 @@ func (g *Rig) runTop(st Step) {
 	}
 	if reached {
 		g.noteSplit(st)
+		switch st.Split.Point {
+		case PtUpdate, PtWFlush:
+			g.openGoroutines = 2 // the calling goroutine waits for its fan-out worker, which is parked
+			if st.Op == OpUpdateSub {
+				g.openGoroutines = 1 // UpdateSubscription delivers on the calling goroutine
+			}
+		default:
+			g.openGoroutines = 1
+		}
 	}
 	ok := g.settle(reached)
 	type pend struct {
 		st   Step
-		done chan struct{}
+		call *callRec
 	}
 	var blocked []pend
 	for _, n := range st.Split.Nested {
@@ -247,18 +258,22 @@ func (g *Rig) runTop(st Step) {
 			g.trace("  nested (blocks until resume) %s", n)
 			g.label("nested-blocked:" + n.Op)
 			blocked = append(blocked, pend{n, g.performAsync(n)})
+			if !(n.Op == OpUnsubscribe && g.subs[n.Sub].sync) { // (cancelling a client context returns at once)
+				g.openGoroutines++
+			}
 			continue
 		}
 		g.trace("  nested %s", n)
 		ntok := g.m.Open()
-		g.perform(n)
+		nc := g.perform(n)
 		g.m.End(n, false)
 		if ok = g.settle(reached); !ok {
 			break
 		}
-		g.stamp(ntok, n)
+		g.stamp(ntok, n, nc)
 		g.checkQuiet("after nested " + n.String() + " inside " + st.String())
 	}
+	g.openGoroutines = 0
 	if reached {
 		g.trace("  resume %s", st.Split.Point)
 		g.sched.Resume()
@@ -270,7 +285,7 @@ func (g *Rig) runTop(st Step) {
 	g.m.End(st, reached)
 	var btoks []int
 	for _, b := range blocked {
-		if !g.waitDone(b.done, "return of blocked "+b.st.String()) {
+		if !g.waitDone(b.call.done, "return of blocked "+b.st.String()) {
 			return
 		}
 		btoks = append(btoks, g.m.Open())
@@ -280,9 +295,9 @@ func (g *Rig) runTop(st Step) {
 	if !g.settle(false) {
 		return
 	}
-	g.stamp(tok, st)
+	g.stamp(tok, st, call)
 	for i, b := range blocked {
-		g.stamp(btoks[i], b.st)
+		g.stamp(btoks[i], b.st, b.call)
 	}
 	g.checkQuiet("after " + st.String())
 }
@@ -360,29 +375,38 @@ func (g *Rig) expire(what string) {
 
 // performAsync runs the step's call in its own goroutine (the model part of a subscribe step is
 // applied first, in the calling goroutine).
-func (g *Rig) performAsync(st Step) chan struct{} {
-	done := make(chan struct{})
+func (g *Rig) performAsync(st Step) *callRec {
+	c := &callRec{done: make(chan struct{})}
 	call := g.prepare(st)
 	g.wg.Add(1)
 	go func() {
 		defer g.wg.Done()
-		defer close(done)
+		defer close(c.done)
 		defer g.recoverPanic(st)
 		call()
+		c.ret.Store(g.clock.Tick())
 		g.bus.Notify()
 	}()
-	return done
+	return c
+}
+
+// callRec is one call made on behalf of a step: done is closed when it has returned, ret is
+// the sequence number taken right at its return (the moment a removing call signals completion).
+type callRec struct {
+	done chan struct{}
+	ret  atomic.Int64
 }
 
 // perform runs an unsplit step: model first for subscribe (the fake source looks the subscriber
 // up), call, then model for everything else. The call is made from a goroutine of its own so
 // that a wedged resolver cannot wedge the harness.
-func (g *Rig) perform(st Step) {
-	done := g.performAsync(st)
-	g.waitDone(done, "return of "+st.String())
+func (g *Rig) perform(st Step) *callRec {
+	c := g.performAsync(st)
+	g.waitDone(c.done, "return of "+st.String())
 	if st.Op != OpSubscribe {
 		g.modelBegin(st, false)
 	}
+	return c
 }
 
 func (g *Rig) recoverPanic(st Step) {
@@ -644,7 +668,7 @@ func (g *Rig) settle(parked bool) bool {
 					case <-rec.Ctx.Context().Done():
 						t.Stop()
 					case <-t.C:
-						g.expire(fmt.Sprintf("cancellation of the Start context of trigger period p%d", p.Idx))
+						g.expired(fmt.Sprintf("cancellation of the Start context of trigger period p%d", p.Idx))
 						return false
 					}
 				}
@@ -652,8 +676,70 @@ func (g *Rig) settle(parked bool) bool {
 		}
 		return true
 	}
-	g.expire("effects expected by the model did not show: " + unmet)
+	g.expired("effects expected by the model did not show: " + unmet)
 	return false
+}
+
+// expired handles a wait that ran out. The timer alone never makes a verdict: but when, after
+// it, exactly the goroutines the executor knows about are left (the parked call, calls blocked on
+// it, sync subscribers still inside ResolveGraphQLSubscription, start goroutines inside a blocking
+// Start, the resolver's heartbeat loop) nothing is running that could still produce the missing
+// effect: it is missing, and the equalities are checked as at any quiet point.
+func (g *Rig) expired(what string) {
+	g.expire(what)
+	want := g.baseline + g.openGoroutines
+	if !g.m.Shutdown {
+		want++ // the resolver's heartbeat loop
+	}
+	for _, s := range g.m.Subs {
+		if s.Sync && s.Registered && g.subs[s.Idx].returned.Load() == 0 {
+			want++
+		}
+	}
+	for _, p := range g.m.Periods {
+		if p.Pending == PendBlocked {
+			want++
+		}
+	}
+	deadline := time.Now().Add(2 * time.Second)
+	for runtime.NumGoroutine() != want {
+		if time.Now().After(deadline) {
+			g.trace("  %d goroutines, %d accounted for: something is still running, no verdict", runtime.NumGoroutine(), want)
+			return
+		}
+		time.Sleep(time.Millisecond)
+	}
+	g.trace("  only the %d goroutines accounted for are left: the state is final", want)
+	g.label("quiet-at-watchdog")
+	when := "nothing left running, yet " + what
+	g.checkQuiet(when)
+	for _, s := range g.m.Subs {
+		if s.Sync && s.Registered && !s.Live && g.subs[s.Idx].returned.Load() == 0 {
+			g.viol(ClNotCompleted, s.Idx, "", "%s: s%d was removed (%s) but ResolveGraphQLSubscription is still blocked: its completion was never signalled", when, s.Idx, s.RemovedBy)
+		}
+		if n := g.expectedItems(s, true); g.subs[s.Idx].w.Items() < n {
+			calls, _ := g.subs[s.Idx].w.Snapshot()
+			g.viol(ClDelivery, s.Idx, "missing:", "%s: writer of s%d has %d items, the model expects %d by now; writer log: %s", when, s.Idx, g.subs[s.Idx].w.Items(), n, logText(calls))
+		}
+	}
+}
+
+// expectedItems counts the non-heartbeat items the model requires for s by now (all of them
+// when everything is requested, else those produced by resolver goroutines).
+func (g *Rig) expectedItems(s *MSub, all bool) int {
+	need := 0
+	for i, e := range s.Exp {
+		if !e.Optional && !e.Pending && e.Kind != CHeartbeat && (all || e.Async) {
+			need = i + 1
+		}
+	}
+	n := 0
+	for _, e := range s.Exp[:need] {
+		if !e.Optional && !e.Pending && e.Kind != CHeartbeat {
+			n++
+		}
+	}
+	return n
 }
 
 func (g *Rig) unmet(parked bool) string {
@@ -695,19 +781,7 @@ func (g *Rig) unmet(parked bool) string {
 		if s.Sync && !s.Live && rs.returned.Load() == 0 {
 			return fmt.Sprintf("ResolveGraphQLSubscription of s%d has not returned", s.Idx)
 		}
-		need := 0 // items produced by resolver goroutines (all of them while a call is parked)
-		for i, e := range s.Exp {
-			if !e.Optional && !e.Pending && e.Kind != CHeartbeat && (parked || e.Async) {
-				need = i + 1
-			}
-		}
-		if need > 0 {
-			n := 0
-			for _, e := range s.Exp[:need] {
-				if !e.Optional && !e.Pending && e.Kind != CHeartbeat {
-					n++
-				}
-			}
+		if n := g.expectedItems(s, parked); n > 0 {
 			if got := rs.w.Items(); got < n {
 				return fmt.Sprintf("writer of s%d has %d items, model expects at least %d", s.Idx, got, n)
 			}
@@ -717,15 +791,21 @@ func (g *Rig) unmet(parked bool) string {
 }
 
 // stamp records the completion signal of the subscribers the finished step removed.
-func (g *Rig) stamp(tok int, st Step) {
+func (g *Rig) stamp(tok int, st Step, call *callRec) {
 	for _, i := range g.m.RemovedBy(tok) {
 		rs := g.subs[i]
+		ms := g.m.Subs[i]
 		if rs.signalSeq != 0 {
 			continue
 		}
-		if rs.sync && !g.m.Subs[i].ViaShutdown && rs.returned.Load() != 0 {
+		if rs.sync && !ms.ViaShutdown && rs.returned.Load() != 0 {
 			rs.signalSeq = rs.returned.Load()
-			rs.signalBy = "return of ResolveGraphQLSubscription (" + g.m.Subs[i].RemovedBy + ")"
+			rs.signalBy = "return of ResolveGraphQLSubscription (" + ms.RemovedBy + ")"
+		} else if !rs.sync && !ms.ViaShutdown && !ms.AsyncRemove && call != nil && call.ret.Load() != 0 {
+			// the removing call itself returned then (it may have been launched while another
+			// call was parked and have returned long before the executor looks at it)
+			rs.signalSeq = call.ret.Load()
+			rs.signalBy = "return of " + ms.RemovedBy
 		} else {
 			rs.signalSeq = g.clock.Tick()
 			rs.signalBy = "completion of " + g.m.Subs[i].RemovedBy
